@@ -255,6 +255,9 @@ class BusModel:
                 if not isinstance(r.origin, int) or r.origin < 0 or r.origin + r.size > 2**self.aw:
                     viol.append(dict(rule="alloc.outside_space", msg=f"automatically allocated region {hx(r.origin)}+{r.size:#x} is outside the "
                                      f"{self.aw}-bit address space"))
+                elif r.origin % pow2_roundup(size):
+                    viol.append(dict(rule="alloc.unaligned", msg=f"automatically allocated region {r.origin:#x}+{r.size:#x} is not aligned on its "
+                                     f"decoded size {pow2_roundup(size):#x}"))
                 elif not cached:
                     self.cover["auto_allocations_uncached"] += 1
                     if not ref_in_io(r.origin, r.size, ios):
@@ -390,16 +393,17 @@ class RealBusModel(BusModel):
     def fresh(self):
         reset_migen_tracer()
         h = soc.SoCBusHandler(standard="wishbone", data_width=self.dw, address_width=self.aw, interconnect=self.interconnect)
+        h.add_master("m0", self.new_if())          # one master from the start, so that every state builds an interconnect
         return types.SimpleNamespace(h=h, last=None)
 
     def info(self, ctx):
-        return (len(ctx.h.masters),)
+        return ()
 
     def menu(self, info):
-        return [c for c in self.base if not (c[0] == "master" and c[1] and info[0] == 0)]
+        return list(self.base)
 
     def roots(self):
-        return self.menu((0,))
+        return list(self.base)
 
     def step(self, ctx, call, idx):
         h = ctx.h
@@ -407,7 +411,7 @@ class RealBusModel(BusModel):
             self.IF = self.new_if()
             return BusModel.step(self, ctx, call, idx)
         _, reuse, with_region = call
-        name = list(h.masters)[0] if reuse else f"m{idx}"
+        name = list(h.masters)[0] if reuse else f"m{idx + 1}"
         region = soc.SoCRegion(origin=0x1000, size=0x1000) if with_region else None
         m = self.new_if()
         ctx.last = dict(name=name, reused=reuse, call=call, nmasters=len(h.masters))
